@@ -26,18 +26,18 @@ WF(j) == Len(j.args) = Len(j.coef) /\ j.den >= 1 /\ \A i \in 1..Len(j.args) : WF
 G(e) == [min8 |-> e.grid[1], max8 |-> e.grid[2], n |-> e.grid[3]]
 IsGrid(e) == e.form = "grid"
 KE(E) == NLevels(E) + 1
-Rows(E, dom) == TLCEval([k \in 1..KE(E) |-> ERow(E, k, dom)])
+Rows(E, dom) == RowsS(E, dom)
 RowK(rs, k, dom) == IF k \in DOMAIN rs THEN rs[k] ELSE [T \in dom |-> 0]
 
 (* the zeros of the argument of abs lie on the quarter lattice *)
-AbsPre(E) == E.abs => \A k \in 1..KE(E) : SignQ(ERow(Raw(E), k, DomF), LoT, HiT)
+AbsPre(E) == E.abs => LET rs == Rows(Raw(E), DomF) IN \A k \in 1..KE(E) : SignQ(rs[k], LoT, HiT)
 (* the expression in gridded form is the interpolation of its values at the grid points *)
 GridWFIn(g) == GridWF(g) /\ g.min8 >= LoT /\ g.max8 <= HiT
 GridPre(E, g) ==
   /\ GridWFIn(g)
   /\ \A i \in 1..Len(E.terms) : GridOK(E.terms[i].D, g)
   /\ AbsPre(E)
-  /\ E.abs => \A k \in 1..KE(E) : InterpExact(ERow(E, k, DomE), g, LoT, HiT)
+  /\ E.abs => LET rs == Rows(E, DomE) IN \A k \in 1..KE(E) : InterpExact(rs[k], g, LoT, HiT)
 Pre(e, E) == AbsPre(E) /\ (IsGrid(e) => GridPre(E, G(e)))
 
 (* ---------------------------------------------------------------- values *)
@@ -129,7 +129,7 @@ Flags(e) ==
   IF Unary(e) /\ WF(e.e) THEN
     LET E == Ex(e.e) IN
     CASE e.op = "integral" /\ IsGrid(e) ->
-           [NoFlags EXCEPT !.flat = \E k \in 1..KE(E) : FlatNonzero(ERow(E, k, DomE), G(e))]
+           [NoFlags EXCEPT !.flat = LET rs == Rows(E, DomE) IN \E k \in 1..KE(E) : FlatNonzero(rs[k], G(e))]
       [] e.op = "levels" /\ IsGrid(e) ->
            [NoFlags EXCEPT !.overfull = e.L >= 2 /\
               SetMax({Depth(E.terms[1].D, G(e).min8 + j * Dx8(G(e))) : j \in 0..G(e).n}) > e.L]
